@@ -2,7 +2,7 @@
 from . import _scn
 from ..core import hx
 ID = "C20"
-PROPS = ["F1Verif.Props.C20", "F1Verif.Props.FactsC20", "F1Verif.Props.RefineC17Run"]
+PROPS = ["F1Verif.Props.C20", "F1Verif.Props.FactsC20", "F1Verif.Props.RefineC17Run", "F1Verif.Props.RefineC20"]
 ALSO = ["F1Verif.Props.Handle"]
 RULE = ("engine A: 2-5 generated components (setup program + iteration programs with pass / Fail / FailNow / panic "
         "behaviours) combined with the real f1.CombineScenarios and run through ActiveScenario.Setup and the worker's "
